@@ -803,3 +803,65 @@ Proof.
     - eapply cl_weaken; [apply cl_refl|lra]. }
   split; [apply cl_rnd, CS|]. split; [apply cl_rnd, HT|]. split; [apply cl_rnd, HX|]. split; [apply cl_rnd, HW|apply cl_rnd, HP].
 Qed.
+
+(* ------------------------------------------------------------------------------------------ *)
+(* the presented totals of the calculation against the unrounded exact value                   *)
+(* ------------------------------------------------------------------------------------------ *)
+Lemma precise_error_bound_budget d t : simple_doc d -> calculate d = Totals t ->
+  exists y, exact d = Some y /\
+    let c := d_c d in
+    let P := (1 # 2) * unitQ c in
+    Qabs (toQ (t_sum t) - i_sum y) <= e_sum (d_lines d) * eps c + P /\
+    Qabs (toQ (t_total t) - i_total y) <= b_total d * eps c + P /\
+    Qabs (toQ (t_tax t) - i_tax y) <= b_tax d * eps c + P /\
+    Qabs (toQ (t_twt t) - i_twt y) <= b_twt d * eps c + P /\
+    Qabs (toQ (t_payable t) - i_payable y) <= b_payable d * eps c + P.
+Proof.
+  intros S H. destruct (calc_refines_ideal d t H) as (x & I & R).
+  destruct (spec_close d x S I) as (y & E & K). exists y. split; [exact E|]. cbv zeta in *.
+  destruct R as (_ & (R1 & _) & _ & _ & _ & (R2 & _) & (R3 & _) & (R4 & _) & (R5 & _) & _).
+  destruct K as (K1 & K2 & K3 & K4 & K5). unfold cl in *.
+  rewrite R1, R2, R3, R4, R5. repeat split; assumption.
+Qed.
+
+Lemma row_weight_nonneg bs : Forall (fun b => 0 <= b) bs -> forall ts, 0 <= row_weight bs ts.
+Proof.
+  intros F. induction F as [|b r H _ IH]; intros [|t ts]; cbn [row_weight]; try lra.
+  pose proof (nQ_nonneg (length t)). specialize (IH ts). nra.
+Qed.
+
+Lemma b_cats_nonneg d : 0 <= b_cats d.
+Proof.
+  unfold b_cats. pose proof (nQ_nonneg (ncombos (row_taxes d))).
+  assert (0 <= row_weight (map (fun b => b + 1) (row_bounds d)) (row_taxes d)); [|lra].
+  apply row_weight_nonneg. apply Forall_forall. intros b I. apply in_map_iff in I. destruct I as (b0 & <- & I).
+  assert (0 <= b0); [|lra]. unfold row_bounds in I. pose proof (e_sum_nonneg (d_lines d)).
+  apply in_app_or in I. destruct I as [I|I]; [|apply in_app_or in I; destruct I as [I|I]];
+    apply in_map_iff in I; destruct I as (z & <- & _); [apply e_line_nonneg|unfold b_drow; lra|unfold b_drow; lra].
+Qed.
+
+Lemma eps_unit c : eps c == (1 # 200) * unitQ c.
+Proof. unfold eps. rewrite unitQ_add. change (unitQ 2) with (1 # 100). ring. Qed.
+
+(* ordinary-sized: the budget of the payable amount (the largest) stays under 100, i.e. under half
+   a minor unit of accumulated working-precision error, the other half being presentation *)
+Lemma precise_error_bound d t : simple_doc d -> b_payable d < 100 -> calculate d = Totals t ->
+  exists y, exact d = Some y /\
+    Qabs (toQ (t_sum t) - i_sum y) < unitQ (d_c d) /\
+    Qabs (toQ (t_total t) - i_total y) < unitQ (d_c d) /\
+    Qabs (toQ (t_tax t) - i_tax y) < unitQ (d_c d) /\
+    Qabs (toQ (t_twt t) - i_twt y) < unitQ (d_c d) /\
+    Qabs (toQ (t_payable t) - i_payable y) < unitQ (d_c d).
+Proof.
+  intros S B H. destruct (precise_error_bound_budget d t S H) as (y & E & K). exists y. split; [exact E|].
+  cbv zeta in K. destruct K as (K1 & K2 & K3 & K4 & K5).
+  pose proof (b_cats_nonneg d) as CN. pose proof (e_sum_nonneg (d_lines d)) as EN.
+  pose proof (nQ_nonneg (length (d_discounts d))) as N1. pose proof (nQ_nonneg (length (d_charges d))) as N2.
+  pose proof (unitQ_pos (d_c d)) as U. rewrite eps_unit in K1, K2, K3, K4, K5.
+  unfold b_payable, b_twt, b_tax, b_total, b_total1, b_drow in *.
+  set (u := unitQ (d_c d)) in *. set (es := e_sum (d_lines d)) in *. set (bc := b_cats d) in *.
+  set (n1 := nQ (length (d_discounts d))) in *. set (n2 := nQ (length (d_charges d))) in *.
+  assert (0 <= n1 * (es + 1)) by nra. assert (0 <= n2 * (es + 1)) by nra.
+  set (m1 := n1 * (es + 1)) in *. set (m2 := n2 * (es + 1)) in *.
+  repeat split; (eapply Qle_lt_trans; [eassumption|]); nra.
+Qed.
